@@ -11,6 +11,9 @@ From WebP Require Model.ArithDec Proofs.C15_main Proofs.C15_ops Proofs.VP8L_kern
 From WebP Require Import Lib.Arr Proofs.VP8_arraykernels_aux Proofs.VP8_arraykernels.
 From WebP Require Model.LosslessLib Model.BitReader Model.Huffman Proofs.Lossless_BitReader Proofs.Lossless_HuffmanSafe Proofs.Lossless_HuffmanRead
   Model.Lossless Proofs.Lossless_PixelSafe.
+From WebP Require Model.LosslessTransform Proofs.C04_bits Spec.PrefixCode
+  Proofs.C01T_repr Proofs.C01T_green Proofs.C01T_color Proofs.C01T_index Proofs.C01T_palette Proofs.C01T_pred_spec Proofs.C01T_predictor Proofs.C01T_frame
+  Proofs.C01_stream Proofs.C01_symbols Proofs.C01_codes Proofs.C01_pixlib Proofs.C01_pixels Proofs.C01_groups Proofs.C01_gspec Proofs.C01_final Proofs.C01_top.
 Import ListNotations.
 Open Scope Z_scope.
 
@@ -134,3 +137,67 @@ Module LL.
     match decode_image_data br w hgt h data with Panic _ => False | OutOfFuel => False | _ => True end.
   Proof. exact decode_image_data_safe. Qed.
 End LL.
+
+(* ---------------- the whole lossless decoder (LosslessDecoder::decode_frame as modelled in Model/Lossless.v) ---------------- *)
+(* RS.frame_safe / RS.frame_implicit_safe: for EVERY byte payload, every fill_buf schedule and every buffer of the right size the model
+   of decode_frame returns Ok or Err -- never a panic (index, slice, overflow, unwrap, assert, shift) and never runs out of its fuel;
+   RS.frame_rejects_invalid: everything the specification rejects is an Err.  module TS: the four inverse transforms one by one. *)
+Module RS.
+  Import Lib.Res Lib.Arr Lib.ZBits Spec.PrefixCode Model.LosslessLib Model.BitReader Model.Huffman Model.Lossless
+    Proofs.Lossless_BitReader Proofs.Lossless_HuffmanSafe Proofs.Lossless_PixelSafe Proofs.C04_bits
+    Proofs.C01_stream Proofs.C01_symbols Proofs.C01_codes Proofs.C01_pixlib Proofs.C01_pixels Proofs.C01_groups
+    Proofs.C01_gspec Proofs.C01_final Proofs.C01_top.
+  Theorem header_establishes_pixel_invariant : forall im h w hgt, info_rel im h w hgt ->
+    info_ok h w hgt (280 + V.cache_size_of (V.cache_bits im)).
+  Proof. exact info_rel_ok. Qed.
+
+  Theorem entropy_decoder_safe : forall br s xs ys (argb : bool) data,
+    rel br s -> 1 <= xs <= 16384 -> 1 <= ys <= 16384 -> zlen data = 4 * (xs * ys) ->
+    match decode_image_stream STREAM_LEVELS br xs ys argb data with Panic _ => False | OutOfFuel => False | _ => True end.
+  Proof. exact decode_image_stream_no_panic. Qed.
+
+  Theorem frame_safe : forall data sched W h buf, Forall byte data -> zlen buf = 4 * (W * h) ->
+    (forall p, decode_frame_arr data sched W h false buf <> Panic p) /\ decode_frame_arr data sched W h false buf <> OutOfFuel.
+  Proof. exact decode_frame_no_panic. Qed.
+
+  Theorem frame_implicit_safe : forall data sched W h buf, Forall byte data -> zlen buf = 4 * (W * h) ->
+    1 <= W <= 16384 -> 1 <= h <= 16384 ->
+    (forall p, decode_frame_arr data sched W h true buf <> Panic p) /\ decode_frame_arr data sched W h true buf <> OutOfFuel.
+  Proof. exact decode_frame_implicit_no_panic. Qed.
+
+  Theorem frame_rejects_invalid : forall data sched W h buf, Forall byte data -> zlen buf = 4 * (W * h) ->
+    V.decode data = None -> exists e, decode_frame_arr data sched W h false buf = Err e.
+  Proof. exact decode_frame_rejects. Qed.
+End RS.
+
+Module TS.
+  Import Lib.Res Lib.Arr Lib.ZBits Model.LosslessLib Model.LosslessTransform Model.Lossless
+    Proofs.C01T_repr Proofs.C01T_green Proofs.C01T_color Proofs.C01T_index Proofs.C01T_palette
+    Proofs.C01T_pred_spec Proofs.C01T_predictor Proofs.C01T_frame.
+  Theorem subtract_green_safe : forall img p, apply_subtract_green_transform img <> Panic p.
+  Proof. exact subtract_green_no_panic. Qed.
+
+  Theorem color_transform_safe : forall bytes px tdata el w h bits nel,
+    1 <= w <= 16384 -> 0 <= h -> 0 <= bits <= 9 -> repr bytes px (w * h) -> zlen bytes = 4 * (w * h) -> repr tdata el nel ->
+    V.DIV_ROUND_UP w (2 ^ bits) * V.DIV_ROUND_UP h (2 ^ bits) <= nel ->
+    forall p, apply_color_transform bytes w bits tdata <> Panic p.
+  Proof. exact color_transform_no_panic. Qed.
+
+  Theorem color_indexing_safe : forall bytes px tdata table w h ts,
+    1 <= w -> 0 <= h -> 1 <= ts <= 256 ->
+    repr bytes px (V.DIV_ROUND_UP w (2 ^ V.width_bits_of ts) * h) -> zlen bytes = 4 * (w * h) ->
+    repr tdata table ts -> zlen tdata = 4 * ts ->
+    forall p, apply_color_indexing_transform bytes w h ts tdata <> Panic p.
+  Proof. exact color_indexing_no_panic. Qed.
+
+  Theorem color_table_safe : forall cm deltas n, repr cm deltas n -> zlen cm = 4 * n -> 1 <= n ->
+    forall p, adjust_color_map cm <> Panic p.
+  Proof. exact adjust_color_map_no_panic. Qed.
+
+  Theorem predictor_transform_safe : forall bytes px pdata modes w h bits nm,
+    1 <= w <= 16384 -> 1 <= h -> 0 <= bits <= 9 -> repr bytes px (w * h) -> zlen bytes = 4 * (w * h) -> repr pdata modes nm ->
+    V.DIV_ROUND_UP w (2 ^ bits) * V.DIV_ROUND_UP h (2 ^ bits) <= nm ->
+    forall p, apply_predictor_transform bytes w h bits pdata <> Panic p.
+  Proof. exact predictor_transform_no_panic. Qed.
+
+End TS.
